@@ -16,7 +16,7 @@ LEVEL_TEXT = ('partial. Lean 4 theorems, for all cubes/patterns/oversampling/fra
               'the Bayer mosaic (np.tile then np.repeat on both axes) has the image shape when the size is a multiple of d*os (one-row '
               'non-multiples are broadcast to an empty result by NumPy: modelled, outside the quantifier) and assigns to sub-pixel (i,j) the colour '
               'pattern[(i/os)%d][(j/os)%d]; equal QEs reproduce the monochrome result and the channels sum to the flat image; DN = max 0 (floor '
-              '(gain polynomial at the clipped count)) for the four gain forms with the exponents of the source power cube, steps in source order, never rounded up, never above the digitised capacity for curves non-decreasing on [0, cap] (adc_le_at_cap), all saturated pixels read the same DN (adc_saturated_pixels_agree), refusal of a Bayer image iff its size is not a multiple (>= 2 rows/cols), non-negative, monotone for every gain curve that '
+              '(gain polynomial at the clipped count)) for the four gain forms with the exponents of the source power cube, steps in source order, never rounded up, the gain dispatch knows exactly the ranks 0..3 (adc_gain_rank_dispatch: any higher rank is refused), never above the digitised capacity for curves non-decreasing on [0, cap] (adc_le_at_cap), all saturated pixels read the same DN (adc_saturated_pixels_agree), refusal of a Bayer image iff its size is not a multiple (>= 2 rows/cols), non-negative, monotone for every gain curve that '
               'is non-decreasing on [0, cap], warning iff a pixel exceeds capacity (condition hand-modelled); the Bayer channel wiring (which efficiency and which letter each channel uses, what is summed) is read off the source and proved equal to the model (bayer_flat_follows_source, bayer_separate_follows_source). Hand model checked against lentil.detector on exact dyadic data.')
 LEVEL_NOTE = ('partial: "input frame untouched" and "requested dtype" are observed by the correspondence (read-only, snapshotted '
               'frames; dtype compared) and by the regenerated effect table of C10, not proved about NumPy; a non-flat Spectrum QE agrees with a '
@@ -26,7 +26,7 @@ LEVEL_NOTE = ('partial: "input frame untouched" and "requested dtype" are observ
 TECHNIQUE = 'Lean 4 proof (omega/Int.ediv-emod, ordered-field algebra, Int.floor) over a hand model with exact differential correspondence'
 GEN = ['DetectorIdx', 'Effects', 'Extent', 'FieldDispatch', 'FieldIdx', 'FieldMerge', 'Units']     # every Gen module the model, lemmas, theorems and driver ops import (transitively)
 OPS = ['C16']
-RULE = ('extremes stream (12 per quick run): wavelengths a hair inside/outside the QE band in m/um/nm/angstrom, gain values 2^-k below an '
+RULE = ('histories (10 per quick run, 150 per search): a QE Spectrum is first used in its OWN wave unit (Spectrum.sample or a collect_charge in that unit, result discarded), then the judged collect_charge / collect_charge_bayer uses the same object with another waveunit and is held to the full oracle; gain-rank cases (6 per quick run): adc with gain arrays of rank 0..6, ranks above 3 must raise ValueError (compared with the regenerated dispatch, op det.gain_rank); extremes stream (12 per quick run): wavelengths a hair inside/outside the QE band in m/um/nm/angstrom, gain values 2^-k below an '
         'integer; Bayer sizes with only the rows, only the columns, or a single row/column off the multiple; cases: collect_charge on cubes (1..4 slices, shapes 1..5, dyadic signed photons, 2-D input), QE as scalar / vector / Spectrum '
         'in nm, um, m, angstrom (grid and sample units independent); Bayer: patterns d=1..3 with random colours (upper/lower case), '
         'os=1..5, image = (d*os*a) x (d*os*b), plus sizes that are not multiples and malformed pattern strings; adc: frames 1..5 '
@@ -276,10 +276,26 @@ def generate(rng, tier):
                 out.append(gen_bayer(rng, d=2, os_=os_, pattern=''.join(pat)))
         for pat in 'RGB':
             for os_ in range(1, 7): out.append(gen_bayer(rng, d=1, os_=os_, pattern=pat))
+    # histories (appended last: the streams above keep their draws): a QE Spectrum is first sampled in its OWN wave unit (directly or through a
+    # collect_charge in that unit), then the judged call uses the same object with ANOTHER waveunit — it must see the spectrum, not earlier state
+    for k in range({'quick': 10, 'thorough': 300, 'search': 150}[tier]): out.append(gen_native_first(rng, k))
+    # rank of the gain array: 0..3 are the four documented forms, anything above must be refused (ValueError of the dispatch)
+    for k in range({'quick': 6, 'thorough': 40, 'search': 12}[tier]):
+        out.append({'kind': 'adc_rank', 'ndim': [4, 5, 0, 1, 2, 3, 6][k % 7], 'shape': [int(rng.integers(1, 4)), int(rng.integers(1, 4))], 'order': int(rng.integers(1, 4))})
     return out
+
+def gen_native_first(rng, k):
+    while True:
+        c = gen_collect(rng) if k % 2 == 0 else gen_bayer(rng)
+        qs = [c['qe']] if c['kind'] == 'collect' else [c['qe_r'], c['qe_g'], c['qe_b']]
+        if c['kind'] == 'collect' and c.get('ns', c['nw']) != c['nw']: continue
+        if any(q['kind'] == 'spectrum' and q['unit'] != c['waveunit'] for q in qs): break
+    c['native_first'] = ['sample', 'collect'][(k // 2) % 2]
+    return c
 
 def signature(c):
     k = c['kind']
+    if k == 'adc_rank': return f"adc_rank ndim={c['ndim']} {c['shape']} order={c['order']}"
     if k == 'collect': return f"collect {c['nw']} {c['shape']} {c['qe']['kind']} {c['qe'].get('unit')} {c['waveunit']} 2d={c['two_d']}"
     if k in ('bayer', 'badpattern'): return f"{k} {c['shape']} d={c['d']} os={c['os']} {c['pattern']} {c['qe_r']['kind']}"
     g = c['gain']
@@ -287,6 +303,7 @@ def signature(c):
 
 def nontrivial(c):
     k = c['kind']
+    if k == 'adc_rank': return True
     if k == 'collect': return c['nw'] > 1 or c['qe']['kind'] != 'scalar'
     if k == 'bayer': return len(set(c['pattern'].upper())) > 1 or c['os'] > 1
     if k == 'badpattern': return True
@@ -297,7 +314,9 @@ def nontrivial(c):
 
 def tags(c):
     k = c['kind']; t = [k]
+    if k == 'adc_rank': return t + ['gain-rank:' + ('refused(>3)' if c['ndim'] > 3 else str(c['ndim']))]
     if c.get('extreme'): t.append('extreme:' + c['extreme'])
+    if c.get('native_first'): t.append('history:Spectrum-used-in-its-own-unit-first:' + c['native_first'])
     if k == 'collect' and c.get('reuse') and c['qe']['kind'] == 'spectrum': t.append('collect:same-Spectrum-reused-after-value-edit')
     if k == 'collect' and c.get('ns', c['nw']) != c['nw']: t.append('collect:slices!=wavelengths' + (':broadcast' if c['ns'] == 1 else ':refused'))
     if k == 'collect': t += ['qe:' + c['qe']['kind'] + (':' + c['qe']['unit'] if c['qe']['kind'] == 'spectrum' else ''), 'waveunit:' + c['waveunit']]
@@ -328,6 +347,16 @@ def _qe_obj(q, lentil):
     grid = np.array([float(Fr(g) * u) for g in q['grid_nm']])
     return lentil.radiometry.Spectrum(grid, _np(q['val']), waveunit=q['unit'])
 
+def _native_first(c, pairs, img, D, lentil):
+    """earlier use of the same Spectrum objects in their own wave unit (results discarded)"""
+    for q, o in pairs:
+        if not isinstance(o, lentil.radiometry.Spectrum): continue
+        own = np.array(o.wave, dtype=float, copy=True)
+        if c['native_first'] == 'sample' or img.ndim != 3: o.sample(own[:max(1, img.shape[0] if img.ndim == 3 else 1)], waveunit=q['unit'])
+        else:
+            w = np.linspace(own[0], own[-1], img.shape[0]) if img.shape[0] > 1 else own[:1]
+            D.collect_charge(img, w, o, waveunit=q['unit'])
+
 def _wu(c):
     """the waveunit argument; omitted in half of the nm cases so the documented default ('nm') is exercised"""
     return {} if (c['waveunit'] == 'nm' and c.get('hseed_default', len(c['wave_nm']) + c['shape'][0]) % 2 == 0) else {'waveunit': c['waveunit']}
@@ -343,6 +372,15 @@ def impl(c):
     lentil = vlib.import_lentil()
     import lentil.detector as D
     k = c['kind']
+    if k == 'adc_rank':
+        R, C = c['shape']; nd = c['ndim']
+        shp = {0: (), 1: (c['order'],), 2: (R, C)}.get(nd, (1,) * (nd - 3) + (c['order'], R, C))
+        frame = np.full((R, C), 3.0); frame.flags.writeable = False
+        try:
+            out = D.adc(frame, np.full(shp, 0.5))
+            return {'ok': True, 'shape': list(out.shape)}
+        except Exception as e:
+            return {'exc': type(e).__name__, 'msg': str(e)[:120]}
     try:
         if k == 'collect':
             R, C = c['shape']
@@ -357,6 +395,7 @@ def impl(c):
                 qe.value = final[::-1] * 0.5 + 0.125
                 D.collect_charge(img, _wave(c), qe, **_wu(c))
                 qe.value = final
+            if c.get('native_first'): _native_first(c, [(c['qe'], qe)], img, D, lentil)
             out = D.collect_charge(img, _wave(c), qe, **_wu(c))
             return {'shape': list(out.shape), 'out': _pairs(out), 'untouched': img.tobytes() == snap}
         if k in ('bayer', 'badpattern'):
@@ -370,6 +409,7 @@ def impl(c):
                 for q, f in zip(specs, finals): q.value = f[::-1] * 0.5 + 0.125
                 D.collect_charge_bayer(*args, oversample=c['os'], **_wu(c))
                 for q, f in zip(specs, finals): q.value = f
+            if c.get('native_first') and c['kind'] == 'bayer': _native_first(c, list(zip((c['qe_r'], c['qe_g'], c['qe_b']), args[2:5])), img, D, lentil)
             flat = D.collect_charge_bayer(*args, oversample=c['os'], **_wu(c))
             ch = D.collect_charge_bayer(*args, oversample=c['os'], waveunit=c['waveunit'], flatten=False)
             if list(flat.shape) != [R, C]:
@@ -435,6 +475,7 @@ def _qe_req(q, wave_nm, nw, waveunit=None):
 
 def requests(c, io):
     k = c['kind']
+    if k == 'adc_rank': return [{'op': 'det.gain_rank', 'ndim': c['ndim']}]
     if k == 'collect':
         return [{'op': 'det.collect', 'nw': c['nw'], 'ns': c.get('ns', c['nw']), 'shape': c['shape'], 'img': c['img'], 'qe': _qe_req(c['qe'], c['wave_nm'], c['nw'], c['waveunit'])}]
     if k in ('bayer', 'badpattern'):
@@ -464,6 +505,10 @@ def _mfr(m): return [Fr(n, d) for n, d in zip(m['num'], m['den'])]
 def compare(c, io, mo):
     k = c['kind']
     m = mo[0]
+    if k == 'adc_rank':
+        if not m.get('ok'): return f"model refused {m.get('err')}"
+        if m['accepted'] != ('exc' not in io): return f"gain of rank {c['ndim']}: implementation {io.get('exc', 'accepted')}, regenerated dispatch {'accepts' if m['accepted'] else 'refuses'}"
+        return None
     if 'exc' in io:
         if m.get('ok'): return f"implementation raised {io['exc']}, model answered"
         return None if m.get('err') == io['exc'] else f"implementation raised {io['exc']}, model {m.get('err')}"
@@ -490,6 +535,10 @@ def compare(c, io, mo):
 # ------------------------------------------------------------------------------------------ oracle (real code only)
 def oracle(c, io):
     k = c['kind']
+    if k == 'adc_rank':
+        if c['ndim'] > 3: return None if io.get('exc') == 'ValueError' else f"adc accepted a gain array of rank {c['ndim']} ({io.get('exc', 'returned ' + str(io.get('shape')))}); only scalar, polynomial, per-pixel and per-pixel-polynomial gains exist"
+        if 'exc' in io: return f"adc refused a gain of rank {c['ndim']}: {io['exc']} {io['msg']}"
+        return None if io['shape'] == c['shape'] else f"adc output shape {io['shape']}"
     R, C = c['shape']
     if k == 'badpattern':
         return None if io.get('exc') == 'ValueError' else f"malformed Bayer string {c['pattern']!r} accepted"
